@@ -1,6 +1,6 @@
 """C01 — binary encoding round-trips and is exactly the documented layout."""
 from .. import gen
-from . import sizes
+from . import sizes, common
 
 SPEC_THEOREM = 'Codec: to_vec v = enc v (layout) and parse_jsonb (enc v) = Ok (normalise v)'
 TRUSTED = ['Coq 8.16.1 kernel (coqc, full .vo build)', 'translator tools/translate_consts.py (tags, masks)',
@@ -33,6 +33,12 @@ def generate(ctx):
              ('a', [('s', b'a'), ('o', []), ('u', 10)]), ('o', [(b'', n), (b'a', ('a', [])), (b'ab', ('o', [(b'k', ('s', b'v'))]))]),
              ('o', [(b'a', ('u', 127)), (b'b', ('u', 128)), (b'c', ('i', -129)), (b'd', ('i', 32768)), (b'e', ('u', 1 << 32))]),
              ('a', [('a', [('a', [('a', [('a', [('u', 1)])])])])]), ('o', [(b'\xc3\xa9', ('s', 'é\U0001F600'.encode()))])]
+    # the shared edge corpus of every other check (payload-free members, empty keys, single members, empty containers next to
+    # siblings ...): a seeded decoder bound `9 bytes per member` was wrong only for an object whose keys are empty / one byte
+    # long with null / boolean values at the very end of the document, e.g. {"":null}
+    vals += common.docs(ctx, 0)
+    vals += [('o', [(b'', n)]), ('o', [(b'', ('b', False)), (b'a', n), (b'b', ('b', True))]), ('a', [('u', 7), ('o', [(b'', n)])]),
+             ('o', [(b'', ('s', b''))]), ('a', [('o', [(b'', n)])]), ('o', [(b'', ('o', [(b'', n)]))])]
     # counts and nesting the random trees never reach: many containers in one document (a decoder that keeps a counter
     # per container, a capacity hint, a depth guard ...), element counts around the byte-width boundaries of the header
     # count, and moderate nesting well below the stack limit
